@@ -141,6 +141,25 @@ def run(chk):
             continue
         if len(chk.violations) < 5:
             nontrivial += oracle(chk, c, o)
+    # whole designs: the short-time response the returned design uses (and writes to Gfunction.csv) is the one of the reported borehole —
+    # reference: the same field and height built from scratch from the requested inputs (also for a design clamped at the minimum height,
+    # and for a fluid whose design temperature is not 20 C)
+    from configs import cfg
+    dcold = cfg("RECTANGLE", months=12, loads={"kind": "heating", "scale": 20000.0, "seed": 4}, flow=("BOREHOLE", 0.3), design={"min_eft": -2.0})
+    dcold["fluid"] = {"fluid_name": "PROPYLENEGLYCOL", "concentration_percent": 30.0, "temperature": 0}
+    dd = [cfg(months=12), cfg(months=12, loads={"kind": "balanced", "scale": 300.0, "seed": 1}, design={"continue_if_design_unmet": True}), dcold]
+    for r in e2e_runs(dd):
+        if not r.get("ok") or "reference" not in r or "gfunc" not in r:
+            chk.broken.append({"name": "end-to-end run / reference failed", "detail": json.dumps({k: r.get(k) for k in ("exc", "msg", "reference_error", "gfunc_error")})})
+            continue
+        chk.cov["evaluations"] += 1
+        nontrivial += 1
+        rg = r["reference"]["gfunc"]
+        if r["gfunc"]["x"] != rg["x"] or r["gfunc"]["y"] != rg["y"]:
+            k_ = next((i for i in range(min(len(rg["x"]), len(r["gfunc"]["x"]))) if r["gfunc"]["x"][i] != rg["x"][i] or r["gfunc"]["y"][i] != rg["y"][i]), None)
+            chk.violation("design-gfunction", r["cfg"], {"H": r["H"], "first_difference_at_row": k_, "on_the_returned_design": [r["gfunc"]["x"][k_ or 0], r["gfunc"]["y"][k_ or 0]],
+                                                        "for_the_reported_borehole": [rg["x"][k_ or 0], rg["y"][k_ or 0]]},
+                          "the short-time response used for the returned design is that of the reported borehole (its height sets the time scale t_s)")
     # correspondence: the model's assembly from (conductances, capacities, old temperatures) vs the arrays handed to LAPACK,
     # and the returned solution checked as a certificate (exact residual in Q)
     if getattr(chk, "model_ok", False):
